@@ -1075,19 +1075,17 @@ Proof.
 Qed.
 
 (** remove_rxn / merge / error outcomes are exercised too *)
+Definition exs1 : net := (add empty_net {["A" := 1%positive]} {["B" := 1%positive]} "r" None).1.1.
+Definition exs2 : net := (add exs1 {["B" := 1%positive]} {["C" := 3%positive]} "q" (Some "x")).1.1.
+Definition exs3 : net := (remove_rxn exs2 "r_1").1.
 Example C15_ops_nonvacuous :
-  let '(s1, _, _) := add empty_net {["A" := 1%positive]} {["B" := 1%positive]} "r" None in
-  let '(s2, _, _) := add s1 {["B" := 1%positive]} {["C" := 3%positive]} "q" (Some "x") in
-  let '(s3, er3) := remove_rxn s2 "r_1" in
-  let '(s4, er4) := merge s3 s2 true in
-  let '(s5, er5) := merge s3 s2 false in
-  er3 = None ∧ species s3 = {["B"; "C"]} ∧ order s3 = ["x"] ∧
-  er4 = None ∧ order s4 = ["x"; "r_2"; "q_1"] ∧
-  er5 = None ∧ order s5 = ["x"; "r_1"; "q_1"] ∧
-  (remove_rxn s3 "r_1").2 = Some KeyError ∧
-  (remove_species s3 "A" true).2 = Some KeyError ∧
-  (add s3 ∅ ∅ "r" None).1.2 = Some ValueError ∧
-  (add s3 {["A" := 1%positive]} ∅ "r" (Some "x")).1.2 = Some KeyError.
+  (remove_rxn exs2 "r_1").2 = None ∧ species exs3 = {["B"; "C"]} ∧ order exs3 = ["x"] ∧
+  (merge exs3 exs2 true).2 = None ∧ order (merge exs3 exs2 true).1 = ["x"; "r_2"; "q_1"] ∧
+  (merge exs3 exs2 false).2 = None ∧ order (merge exs3 exs2 false).1 = ["x"; "r_1"; "q_1"] ∧
+  (remove_rxn exs3 "r_1").2 = Some KeyError ∧
+  (remove_species exs3 "A" true).2 = Some KeyError ∧
+  (add exs3 ∅ ∅ "r" None).1.2 = Some ValueError ∧
+  (add exs3 {["A" := 1%positive]} ∅ "r" (Some "x")).1.2 = Some KeyError.
 Proof.
-  apply (bool_decide_unpack _). vm_compute. exact I.
+  split_and!; apply (bool_decide_unpack _); vm_compute; exact I.
 Qed.
